@@ -4,6 +4,9 @@ From Coq Require Import List Arith Bool.
 From LokyV Require Import Model.TokenFlow Proofs.TokenFlowInv Proofs.TokenFlowThm.
 From LokyV Require Lib.WorkerLib Gen.Worker Proofs.WorkerThm.
 From LokyV Require Lib.FlowLib Gen.Flow Model.FlowTie Proofs.FlowTieThm Lib.PoolLib Gen.Pool.
+From LokyV Require Lib.LockLib Model.LockOrder Proofs.LockOrderThm.
+From LokyV Require Gen.LockOrder.
+Module LockOrderG := LokyV.Gen.LockOrder.
 Import ListNotations.
 
 (* every step other than the pool-wide failure of terminate_broken changes at most the future of the work id
@@ -85,3 +88,11 @@ Proof.
   split; [exact FlowTieThm.feeder_order|]. split; [exact FlowTieThm.forced_fail_order | exact FlowTieThm.submit_order].
 Qed.
 Print Assumptions C04_token_flow_follows_the_source.
+
+(* done-callbacks never run under one of the executor's own locks: in the relation read off the source (Gen/LockOrder.v) the only
+   thing held when a future is completed is the pseudo-lock of the thread doing it -- a callback that submits follow-up work cannot
+   find the shutdown lock or the management lock taken by its own caller *)
+Theorem C04_callbacks_run_outside_the_locks :
+  forallb (fun e => negb (LockLib.lk_eqb (snd e) LockLib.UserCb) || LockLib.lk_eqb (fst e) LockLib.TMgr) LockOrderG.lock_edges = true.
+Proof. exact LockOrderThm.callbacks_run_outside_the_locks. Qed.
+Print Assumptions C04_callbacks_run_outside_the_locks.
